@@ -1,6 +1,6 @@
 (* The parser of src/parser.rs, POLYMORPHIC in
      A  positions            G  comment group in front of a token
-     D  comment state        C  documentation value     Cm one comment
+     D  comment state        C  documentation value
      E  scanner error
    and written against abstract operations only ([ops]).  The core can neither
    inspect a position nor a comment: layout independence (C13), position shift
@@ -84,7 +84,7 @@ Definition classify_unary (o : operator) : unary_class :=
   end.
 
 Section Core.
-Variables (A G D C Cm E : Type).
+Variables (A G D C E : Type).
 
 Record ops : Type := {
   d_next : D -> G -> option A -> D;      (* comment loop of Parser::next *)
@@ -799,7 +799,7 @@ Definition type_or_none_body (s : pstate) : res (option nodeT) :=
       let* (pos, s1) := expect (KOp OArrow) 46 s in
       let* (pos1, s2) := expect (KKw KChan) 47 s1 in
       let* (typ, s3) := k_type self s2 in
-      Ok (Some (mk GTypeChannel [pos; pos1] [ADir 2] [typ])) s3
+      Ok (Some (mk GTypeChannel [pos1; pos] [ADir 2] [typ])) s3
   | Some (_, TKeyword KFunc) =>
       let* (t, s1) := func_type s in Ok (Some t) s1
   | Some (_, TOperator OBarackLeft) =>
